@@ -187,8 +187,10 @@ class OfRun(object):
             elif name == 'sort':
                 if m is None:
                     return None
-                o.sort(reverse=op[1]) if not op[2] else o.sort(key=lambda z: -int(z), reverse=op[1])
-                self.m = sorted(m, reverse=op[1]) if not op[2] else sorted(m, key=lambda z: -z, reverse=op[1])
+                # key 2 and 3 are not injective: members that tie keep their relative order (list.sort is stable, also when reversed)
+                kf = {1: lambda z: -z, 2: lambda z: z % 3, 3: lambda z: abs(z) // 2}.get(int(op[2]))
+                o.sort(reverse=op[1]) if kf is None else o.sort(key=lambda z: kf(int(z)), reverse=op[1])
+                self.m = sorted(m, reverse=op[1]) if kf is None else sorted(m, key=kf, reverse=op[1])
             elif name == 'reverse':
                 if m is None:
                     return None
@@ -954,7 +956,7 @@ def run_shard(desc, seed, tier, col):
             def setslice(self, a, xs):
                 self.do(['setslice', a, xs], True)
 
-            @rule(rev=st.booleans(), key=st.booleans())
+            @rule(rev=st.booleans(), key=st.integers(0, 3))
             def sort(self, rev, key):
                 self.do(['sort', rev, key], True)
 
